@@ -238,6 +238,9 @@ def run(ctx):
                 n_exp = int(rng.integers(1, 3))
                 idx = rng.choice(len(an_res.outputs), size=min(n_exp, len(an_res.outputs)), replace=False)
                 outs = [an_res.outputs[int(i)] for i in idx]
+                if rng.random() < 0.15:
+                    outs = outs + [State(list(outs[0].s))]      # the same expected state listed twice: still one state
+                    ctx.bucket("expected_state_listed_twice")
                 expected[s] = outs[0] if (len(outs) == 1 and rng.random() < 0.5) else outs
             if len(expected) >= 2 and rng.random() < 0.6:
                 items = list(expected.items())
@@ -349,7 +352,7 @@ def run(ctx):
                     e = expected[s]
                     e = [e] if isinstance(e, State) else e
                     tot = sum(acc[i].values())
-                    errs.append(1 - sum(acc[i].get(tuple(o.s), 0.0) for o in e) / tot)
+                    errs.append(1 - sum(acc[i].get(o_, 0.0) for o_ in {tuple(o.s) for o in e}) / tot)
                 er = float(np.mean(errs))
                 min_tot = min(sum(a.values()) for a in acc)
                 if not abs(getattr(an_res2, "error_rate", np.nan) - er) <= 1e-6 + 4 * (trunc * max(1, len(an_res2.outputs)) + (tol_vac if lossy else 0)) / min_tot:
